@@ -26,10 +26,10 @@ void GEO_set_dir(GTV* g, Real3 d) __CPROVER_requires(g != 0) __CPROVER_assigns()
 Propagation GEO_find_next_step(GTV* g, real_type maxdist)     /* straight-line search: 0 <= distance <= maxdist, boundary flag; does not move the track */
 __CPROVER_requires(g != 0 && maxdist > 0)
 __CPROVER_assigns()
-__CPROVER_ensures(__CPROVER_return_value.distance >= 0 && __CPROVER_return_value.distance <= maxdist && !__CPROVER_return_value.looping)
+__CPROVER_ensures(__CPROVER_return_value.distance >= 0 && __CPROVER_return_value.distance <= maxdist && __CPROVER_return_value.looping == 0 && (__CPROVER_return_value.boundary == 0 || __CPROVER_return_value.boundary == 1))   /* bools are proper 0/1 values */
 ;
-void GEO_move_internal(GTV* g, Real3 p) __CPROVER_requires(g != 0) __CPROVER_assigns(g->on_boundary, g->pos) __CPROVER_ensures(!g->on_boundary);   /* afterwards the track is inside a volume */
-void GEO_move_to_boundary(GTV* g) __CPROVER_requires(g != 0) __CPROVER_assigns(g->on_boundary, g->pos) __CPROVER_ensures(g->on_boundary);           /* afterwards the track is on the boundary */
+void GEO_move_internal(GTV* g, Real3 p) __CPROVER_requires(g != 0) __CPROVER_assigns(g->on_boundary, g->pos) __CPROVER_ensures(g->on_boundary == 0);   /* afterwards the track is inside a volume */
+void GEO_move_to_boundary(GTV* g) __CPROVER_requires(g != 0) __CPROVER_assigns(g->on_boundary, g->pos) __CPROVER_ensures(g->on_boundary == 1);           /* afterwards the track is on the boundary */
 /* ---- field driver: contract of advance() (its own ENSURE: 0 < step <= requested) ---- */
 DriverResult DRV_advance(DriverT const* d, real_type step, OdeState const* st)
 __CPROVER_requires(d != 0 && step > 0)
@@ -38,10 +38,15 @@ __CPROVER_ensures(__CPROVER_return_value.step > 0 && __CPROVER_return_value.step
 ;
 /* ---- vector numerics: uninterpreted (any values) ---- */
 Chord UT_make_chord(Real3 a, Real3 b) __CPROVER_requires(1) __CPROVER_assigns() __CPROVER_ensures(__CPROVER_return_value.length >= 0);
-bool UT_is_intercept_close(Real3 pos, Real3 dir, real_type distance, Real3 target, real_type tol) __CPROVER_requires(1) __CPROVER_assigns() __CPROVER_ensures(1);
+bool UT_is_intercept_close(Real3 pos, Real3 dir, real_type distance, Real3 target, real_type tol) __CPROVER_requires(1) __CPROVER_assigns() __CPROVER_ensures(__CPROVER_return_value == 0 || __CPROVER_return_value == 1);
 Real3 UT_make_unit_vector(Real3 m) __CPROVER_requires(1) __CPROVER_assigns() __CPROVER_ensures(1);
 void UT_axpy(real_type a, Real3 x, Real3* y) __CPROVER_requires(y != 0) __CPROVER_assigns(*y) __CPROVER_ensures(1);
 double __CPROVER_uninterpreted_update_length(double, double, double);
+/* substep.step * linear_step.distance / chord.length with all three >= 0: any value that is not negative (NaN for 0/0 allowed) */
+static real_type UF_update_length(real_type a, real_type b, real_type c) { real_type r = __CPROVER_uninterpreted_update_length(a, b, c); __CPROVER_assume(!(r < 0)); return r; }
+#ifndef MAXITER
+#define MAXITER 3
+#endif
 static real_type celer_min(real_type a, real_type b) { return fmin(a, b); }    /* celeritas::min<floating> = std::fmin (extracted and checked in c14_msc_*) */
 int g_iters;      /* ghost: number of loop iterations executed */
 """
@@ -50,13 +55,13 @@ FP_RULES = [
     Rule(r"result_type result;", "result_type result = {0, 0, 0};", 1, note="default member initializers"),
     Rule(r"geo_\.is_on_boundary\(\)", "GEO_is_on_boundary(self->geo_)", "*", note="geometry view call"),
     Rule(r"auto remaining_substeps = this->max_substeps\(\);", "short remaining_substeps = self->driver_->max_substeps_; g_iters = 0;", 1, note="auto -> short int; ghost"),
-    Rule(r"CELER_ASSERT\(soft_zero\(distance\(state_\.pos, geo_\.pos\(\)\)\)\);", "++g_iters; /* NOT PROMOTED: CELER_ASSERT(soft_zero(distance(state_.pos, geo_.pos()))) -- position bookkeeping of the geometry, numerics */", 1, note="in-body assert not promoted (geometry/ODE position consistency is numeric)"),
+    Rule(r"CELER_ASSERT\(soft_zero\(distance\(state_\.pos, geo_\.pos\(\)\)\)\);", "++g_iters; __CPROVER_assume(g_iters <= MAXITER); /* bounded unit: at most MAXITER loop iterations (bisection / chord-shortening iterations do not consume the substep budget, so the budget alone does not bound the loop) */ /* NOT PROMOTED: CELER_ASSERT(soft_zero(distance(state_.pos, geo_.pos()))) -- position bookkeeping of the geometry, numerics */", 1, note="in-body assert not promoted (geometry/ODE position consistency is numeric)"),
     Rule(r"DriverResult substep = driver_\.advance\(remaining, state_\);", "DriverResult substep = DRV_advance(self->driver_, remaining, &self->state_);", 1, note="driver call -> stub with its contract"),
     Rule(r"auto chord = make_chord\(state_\.pos, substep\.state\.pos\);", "Chord chord = UT_make_chord(self->state_.pos, substep.state.pos);", 1, note="vector numerics -> stub"),
     Rule(r"this->(minimum_substep|delta_intersection|bump_distance)\(\)", r"FPR_\1(self)", "*", note="member call"),
     Rule(r"geo_\.set_dir\(([^;]*)\);", r"GEO_set_dir(self->geo_, \1);", "*", note="geometry view call"),
     Rule(r"auto linear_step\s*=\s*geo_\.find_next_step\(([^;]*)\);", r"Propagation linear_step = GEO_find_next_step(self->geo_, \1);", 1, note="geometry view call"),
-    Rule(r"real_type const update_length = substep\.step \* linear_step\.distance\s*/ chord\.length;", "real_type const update_length = __CPROVER_uninterpreted_update_length(substep.step, linear_step.distance, chord.length); /* substep.step * linear_step.distance / chord.length: uninterpreted (any value) */", 1, note="FP product/quotient -> uninterpreted function"),
+    Rule(r"real_type const update_length = substep\.step \* linear_step\.distance\s*/ chord\.length;", "real_type const update_length = UF_update_length(substep.step, linear_step.distance, chord.length); /* substep.step * linear_step.distance / chord.length: uninterpreted (any value) */", 1, note="FP product/quotient -> uninterpreted function"),
     Rule(r"state_ = substep\.state;", "self->state_ = substep.state;", "*", note="data member"),
     Rule(r"geo_\.move_internal\(([^;]*)\);", r"GEO_move_internal(self->geo_, \1);", "*", note="geometry view call"),
     Rule(r"geo_\.move_to_boundary\(\);", "GEO_move_to_boundary(self->geo_);", "*", note="geometry view call"),
@@ -85,6 +90,8 @@ Propagation FPR_call(FieldPropagator* self, real_type step)
 __CPROVER_requires(self != 0 && self->driver_ != 0 && self->geo_ != 0)
 __CPROVER_requires(step > 0 && !__CPROVER_isinfd(step))      /* own CELER_EXPECT */
 /* FieldDriverOptions as validated by its operator bool: all tolerances positive; substep budget in [1, MAXSUB] for this bounded unit */
+/* the bump distance 0.1 * delta_intersection does not underflow to zero */
+__CPROVER_requires(self->driver_->delta_intersection_ * 0.1 > 0)
 __CPROVER_requires(self->driver_->delta_intersection_ > 0 && !__CPROVER_isinfd(self->driver_->delta_intersection_) && self->driver_->minimum_step_ > 0 && self->driver_->max_substeps_ >= 1 && self->driver_->max_substeps_ <= MAXSUB)
 __CPROVER_assigns(self->state_, self->geo_->on_boundary, self->geo_->pos, g_iters)
 /* the returned distance is positive (its own CELER_ENSURE) */
@@ -110,8 +117,8 @@ void h_fpr(void)
 
 
 UNITS = [
-    Unit("c08_field_propagator", build_field_propagator, "h_fpr", enforce="FPR_call", unwind=5, timeout=900, backend=["sat", "cvc5"], defines=["MAXSUB=3"],
-         bounded="substep budget (max_substeps) <= 3: the do-while loop is unwound; the driver, geometry and vector numerics are replaced by contracts / uninterpreted functions",
+    Unit("c08_field_propagator", build_field_propagator, "h_fpr", enforce="FPR_call", unwind=4, timeout=900, object_bits=12, backend=["sat", "cvc5"], defines=["MAXSUB=2"],
+         bounded="substep budget (max_substeps) <= 2 and at most 3 loop iterations in total: the do-while loop is unwound; the driver, geometry and vector numerics are replaced by contracts / uninterpreted functions",
          replace=["GEO_set_dir", "GEO_find_next_step", "GEO_move_internal", "GEO_move_to_boundary", "DRV_advance", "UT_make_chord", "UT_is_intercept_close", "UT_make_unit_vector", "UT_axpy"],
          must_have=[r"FPR_call.postcondition", r"celer_assert", r"celer_ensure", r"DRV_advance.precondition", r"GEO_find_next_step.precondition", r"unwinding assertion"],
          checks=["--bounds-check", "--pointer-check"],
